@@ -53,8 +53,12 @@ _real = {
     "fromfile": _np.fromfile,
     "os_open": os.open, "os_close": os.close, "os_write": os.write, "os_read": os.read, "os_fsync": os.fsync,
     "os_fdatasync": getattr(os, "fdatasync", os.fsync), "os_ftruncate": os.ftruncate, "os_lseek": os.lseek,
-    "os_fstat": os.fstat,
+    "os_fstat": os.fstat, "os_chmod": os.chmod, "os_utime": os.utime, "os_chown": getattr(os, "chown", None),
+    "os_fchmod": getattr(os, "fchmod", None), "os_truncate": os.truncate, "os_link": os.link,
 }
+_real["os_listxattr"] = getattr(os, "listxattr", None)
+import mmap as _mmap_mod
+_real["mmap"] = _mmap_mod.mmap
 FD_BASE = 1 << 20   # simulated descriptors live far above anything the real OS hands out
 
 _FS = None  # the installed SimFS (module global; one simulated disk per process at a time)
@@ -959,6 +963,138 @@ def _p_os_fstat(fd):
     return _real["os_fstat"](fd)
 
 
+def _exists_or_raise(fs, p):
+    if p not in fs.nodes:
+        raise FileNotFoundError(errno.ENOENT, "No such file or directory", p)
+
+
+def _p_os_chmod(path, mode, *a, **kw):
+    fs = _FS
+    if fs is not None:
+        if isinstance(path, int) and _fd(path) is not None:
+            return None
+        p = fs.resolve(path)
+        if p is not None:
+            _exists_or_raise(fs, p)
+            return None          # permission bits are not modelled (the simulated user may do everything)
+    return _real["os_chmod"](path, mode, *a, **kw)
+
+
+def _p_os_fchmod(fd, mode):
+    if _fd(fd) is not None:
+        return None
+    return _real["os_fchmod"](fd, mode)
+
+
+def _p_os_utime(path, *a, **kw):
+    fs = _FS
+    if fs is not None:
+        p = fs.resolve(path)
+        if p is not None:
+            _exists_or_raise(fs, p)
+            return None
+    return _real["os_utime"](path, *a, **kw)
+
+
+def _p_os_chown(path, *a, **kw):
+    fs = _FS
+    if fs is not None:
+        p = fs.resolve(path)
+        if p is not None:
+            _exists_or_raise(fs, p)
+            return None
+    return _real["os_chown"](path, *a, **kw)
+
+
+def _p_os_truncate(path, length):
+    fs = _FS
+    if fs is not None:
+        if isinstance(path, int) and _fd(path) is not None:
+            return _p_os_ftruncate(path, length)
+        p = fs.resolve(path)
+        if p is not None:
+            _exists_or_raise(fs, p)
+            nd = fs.nodes[p].data
+            if length < len(nd):
+                del nd[length:]
+            else:
+                nd.extend(b"\0" * (length - len(nd)))
+            fs.tick += 1
+            fs.nodes[p].mtime = fs.tick
+            return None
+    return _real["os_truncate"](path, length)
+
+
+def _p_os_link(src, dst, *a, **kw):
+    fs = _FS
+    if fs is not None:
+        p, q = fs.resolve(src), fs.resolve(dst)
+        if p is not None and q is not None:
+            _exists_or_raise(fs, p)
+            if q in fs.nodes:
+                raise FileExistsError(errno.EEXIST, "File exists", q)
+            fs.nodes[q] = fs.nodes[p]     # a hard link: two names, one inode
+            return None
+    return _real["os_link"](src, dst, *a, **kw)
+
+
+def _p_os_listxattr(path=None, *a, **kw):
+    fs = _FS
+    if fs is not None and path is not None:
+        if isinstance(path, int) and _fd(path) is not None:
+            return []
+        p = fs.resolve(path) if not isinstance(path, int) else None
+        if p is not None:
+            _exists_or_raise(fs, p)
+            return []
+    return _real["os_listxattr"](path, *a, **kw)
+
+
+class _SimMmap(bytearray):
+    """what mmap.mmap(fd_of_a_SimFS_file, ...) returns: a buffer over a copy of the file region; flush() writes it
+    back when the mapping is writable.  Enough for numpy.memmap / emfile(mmap=True) / mrcfile.mmap."""
+
+    def _bind(self, raw, offset, writable):
+        self._raw, self._off, self._w, self.closed = raw, offset, writable, False
+        return self
+
+    def flush(self, *a):
+        if self._w and not self._raw.dead:
+            nd = self._raw.node.data
+            nd[self._off:self._off + len(self)] = bytes(self)
+        return None
+
+    def close(self):
+        self.closed = True
+
+    def size(self):
+        return len(self._raw.node.data)
+
+    def __enter__(self):
+        return self
+
+    def __exit__(self, *a):
+        self.close()
+
+
+def _p_mmap(fileno, length, *a, **kw):
+    raw = _fd(fileno)
+    if raw is None:
+        return _real["mmap"](fileno, length, *a, **kw)
+    offset = kw.get("offset", 0)
+    access = kw.get("access", None)
+    if access is None and len(a) >= 3:
+        access = a[2]
+    writable = access in (_mmap_mod.ACCESS_WRITE, _mmap_mod.ACCESS_DEFAULT, None) and raw._w
+    data = raw.node.data
+    if length == 0:
+        length = len(data) - offset
+    if offset + length > len(data):
+        raise ValueError("mmap length is greater than file size")
+    raw.fs._prim("read", raw.path, length, handle=raw)
+    return _SimMmap(data[offset:offset + length])._bind(raw, offset, writable)
+
+
 def is_sim_stream(f):
     return isinstance(f, SimRaw) or isinstance(getattr(f, "raw", None), SimRaw)
 
@@ -1027,6 +1163,17 @@ def install_patches():
     os.ftruncate = _p_os_ftruncate
     os.lseek = _p_os_lseek
     os.fstat = _p_os_fstat
+    os.chmod = _p_os_chmod
+    os.utime = _p_os_utime
+    os.truncate = _p_os_truncate
+    os.link = _p_os_link
+    if _real["os_chown"] is not None:
+        os.chown = _p_os_chown
+    if _real["os_fchmod"] is not None:
+        os.fchmod = _p_os_fchmod
+    if _real["os_listxattr"] is not None:
+        os.listxattr = _p_os_listxattr
+    _mmap_mod.mmap = _p_mmap
     _np.fromfile = _p_fromfile
     try:  # numpy caches io.open for np.loadtxt / np.savetxt
         import numpy.lib._datasource as ds
